@@ -38,19 +38,28 @@ def builders():
         out.append(("RRS", op.name, rrs(op)))
     # ---- LP
 
+    calls = [0]
+
     def gps(r):
-        lat = r.choice([0.0, 4718.8051, 8959.9999, round(r.uniform(0, 8959.9999), 4)])
-        lon = r.choice([0.0, 1854.4387, 17959.9999, round(r.uniform(0, 17959.9999), 4)])
+        # the special values are walked through by a counter (every one of them occurs in every run, whatever the seed), the
+        # random ones fill the rest
+        n = calls[0]
+        calls[0] += 1
+        lat = [0.0, 4718.8051, 8959.9999, round(r.uniform(0, 8959.9999), 4)][n % 4]
+        lon = [0.0, 1854.4387, 17959.9999, round(r.uniform(0, 17959.9999), 4), round(r.uniform(0, 17959.9999), 4)][n % 5]
         # the speed field holds three characters: "x.y" below 10, an integer from 10 on; values that only reach 10 after rounding
         # to a tenth (9.95 .. 9.99) belong to the second form
-        spd = r.choice([0.0, 0.01, 0.04, 0.05, 0.1, 5.0, 9.9, 9.94, 9.95, 9.96, 9.99, 10.0, 10.4, 12.0, 99.0, 99.4, 99.6, 100.0, 999.0, 999.4, 999.5,
-                        999.9, float(r.randrange(0, 1000)), r.randrange(1, 100) / 10, round(r.uniform(9.9, 10.1), 3), round(r.uniform(0, 999.9), 2)])
+        speeds = [0.0, 0.01, 0.04, 0.05, 0.1, 5.0, 9.9, 9.94, 9.95, 9.96, 9.99, 10.0, 10.4, 12.0, 99.0, 99.4, 99.6, 100.0, 999.0, 999.4, 999.5,
+                  999.9, float(r.randrange(0, 1000)), r.randrange(1, 100) / 10, round(r.uniform(9.9, 10.1), 3), round(r.uniform(0, 999.9), 2)]
+        spd = speeds[n % len(speeds)]
         # the legal values whose text is all zeros or collides with an "absent" sentinel: midnight, the first day of 2000
-        tm = r.choice([datetime.time(0, 0, 0), datetime.time(0, 0, 1), datetime.time(23, 59, 59), datetime.time(10, 0, 0),
-                       datetime.time(r.randrange(24), r.randrange(60), r.randrange(60)), datetime.time(r.randrange(24), r.randrange(60), r.randrange(60))])
-        dt = r.choice([datetime.date(2000, 1, 1), datetime.date(2099, 12, 31), datetime.date(2010, 10, 10), datetime.date(r.randrange(2000, 2100), 2, 29 if False else 28),
-                       datetime.date(r.randrange(2000, 2100), r.randrange(1, 13), r.randrange(1, 29)),
-                       datetime.date(r.randrange(2000, 2100), r.randrange(1, 13), r.randrange(1, 29))])
+        tm = [datetime.time(0, 0, 0), datetime.time(0, 0, 1), datetime.time(23, 59, 59), datetime.time(10, 0, 0),
+              datetime.time(r.randrange(24), r.randrange(60), r.randrange(60)), datetime.time(r.randrange(24), r.randrange(60), r.randrange(60)),
+              datetime.time(r.randrange(24), r.randrange(60), r.randrange(60))][n % 7]
+        dt = [datetime.date(2000, 1, 1), datetime.date(2099, 12, 31), datetime.date(2010, 10, 10), datetime.date(r.randrange(2000, 2100), 2, 28),
+              datetime.date(r.randrange(2000, 2100), r.randrange(1, 13), r.randrange(1, 29)),
+              datetime.date(r.randrange(2000, 2100), r.randrange(1, 13), r.randrange(1, 29)),
+              datetime.date(2069, 6, 15), datetime.date(2068, 12, 31), datetime.date(r.randrange(2000, 2100), r.randrange(1, 13), r.randrange(1, 29))][n % 9]
         return L.GPSData(data_valid=r.choice(["A", "V"]), greenwich_time=tm, greenwich_date=dt,
                          north_south=r.choice(["N", "S"]), latitude=lat, east_west=r.choice(["E", "W"]), longitude=lon, speed_knots=spd,
                          direction=r.choice([0, 1, 121, 359]))
